@@ -19,14 +19,14 @@ import (
 type okind uint8
 
 const (
-	kPd okind = iota // object(s) parameter i refers to directly
-	kPr              // memory reachable deeper from parameter i
-	kF               // allocation site (global name)
-	kR               // collapsed fresh result of a call site
-	kG               // a package-level variable (the cell)
-	kFn              // function value (closure or plain function)
-	kFresh           // summary-only marker: callee-fresh memory
-	kExt             // memory owned by external code (e.g. net.IPv4bcast's array)
+	kPd    okind = iota // object(s) parameter i refers to directly
+	kPr                 // memory reachable deeper from parameter i
+	kF                  // allocation site (global name)
+	kR                  // collapsed fresh result of a call site
+	kG                  // a package-level variable (the cell)
+	kFn                 // function value (closure or plain function)
+	kFresh              // summary-only marker: callee-fresh memory
+	kExt                // memory owned by external code (e.g. net.IPv4bcast's array)
 )
 
 type Obj struct {
@@ -114,21 +114,21 @@ type summary struct {
 }
 
 type e3Engine struct {
-	c        *Ctx
-	p        *Prog
-	objs     map[string]*Obj
-	summ     map[string]*summary // key fn|ctx
-	order    []string
-	gheap    map[*Obj]oset // contents of global cells and of objects that escaped into globals
-	changed  bool
-	inProg   map[string]bool
-	dirty    map[string]bool
-	dependents map[string]map[string]bool // callee key -> caller keys
-	gReaders map[string]bool            // summaries that read the global heap
-	implCache map[*types.Interface][]types.Type
-	reachCache map[string]bool
-	rounds   int
-	nAnalysed int
+	c            *Ctx
+	p            *Prog
+	objs         map[string]*Obj
+	summ         map[string]*summary // key fn|ctx
+	order        []string
+	gheap        map[*Obj]oset // contents of global cells and of objects that escaped into globals
+	changed      bool
+	inProg       map[string]bool
+	dirty        map[string]bool
+	dependents   map[string]map[string]bool // callee key -> caller keys
+	gReaders     map[string]bool            // summaries that read the global heap
+	implCache    map[*types.Interface][]types.Type
+	reachCache   map[string]bool
+	rounds       int
+	nAnalysed    int
 	retFindCache map[string][]e3Finding
 	// bypassUio: analyse uio's own code instead of applying the Lexer ADT rows (used to re-derive the rows)
 	bypassUio bool
@@ -164,6 +164,7 @@ func (e *e3Engine) pd(i int) *Obj {
 	o.idx = i
 	return o
 }
+
 const prDeep = 3
 
 func (e *e3Engine) pr(i, lvl int) *Obj {
@@ -1245,9 +1246,9 @@ func (st *fstate) call(in ssa.Instruction, c *ssa.CallCommon, res ssa.Value) {
 	nres := c.Signature().Results().Len()
 
 	type target struct {
-		fn      *ssa.Function
-		fnObj   *Obj // closure object when called through a function value
-		viaPrm  oset // param-relative origins the function value came from
+		fn     *ssa.Function
+		fnObj  *Obj // closure object when called through a function value
+		viaPrm oset // param-relative origins the function value came from
 	}
 	var targets []target
 	if f := c.StaticCallee(); f != nil {
